@@ -486,6 +486,264 @@ theorem mergeOpt_name_bnd (g : List (String × α)) (o : OptArg α) :
     ((mergeOpt g o).name, (mergeOpt g o).bnd) = (o.name, o.bnd) := by
   unfold mergeOpt; split <;> rfl
 
+/-! ### `set_arg_bounds(check_args=True)` keeps a model inside the (new) bounds -/
+
+/-- optional-argument names are distinct and none of them shadows a standard argument
+    (`set_opt_args` raises for names already present in the class) -/
+def OptNamesOK (s : State α) : Prop :=
+  (s.opt.map (·.name)).Nodup ∧ ∀ o ∈ s.opt, o.name ≠ "var" ∧ o.name ≠ "len_scale" ∧ o.name ≠ "nugget" ∧ o.name ≠ "anis"
+
+theorem optGet_of_mem {s : State α} (hn : (s.opt.map (·.name)).Nodup) {o : OptArg α} (ho : o ∈ s.opt) :
+    optGet s o.name = o.val := by
+  unfold optGet
+  generalize s.opt = l at hn ho
+  induction l with
+  | nil => cases ho
+  | cons b l ih =>
+    simp only [List.map_cons, List.nodup_cons] at hn
+    simp only [List.find?_cons]
+    rcases List.mem_cons.mp ho with h | h
+    · subst h; simp
+    · have hne : (b.name == o.name) = false := by
+        rw [beq_eq_false_iff_ne]
+        intro heq
+        exact hn.1 (heq ▸ List.mem_map_of_mem (f := (·.name)) h)
+      simp only [hne]
+      exact ih hn.2 h
+
+/-- replacing the bounds of one optional argument does not change any value -/
+def setBndOf (arg : String) (b : Bnd α) (o : OptArg α) : OptArg α :=
+  if o.name == arg then { o with bnd := b } else o
+
+theorem setBndOf_name (arg : String) (b : Bnd α) (o : OptArg α) : (setBndOf arg b o).name = o.name := by
+  unfold setBndOf; split <;> rfl
+
+theorem setBndOf_val (arg : String) (b : Bnd α) (o : OptArg α) : (setBndOf arg b o).val = o.val := by
+  unfold setBndOf; split <;> rfl
+
+theorem optGet_setBnd (s : State α) (arg : String) (b : Bnd α) (n : String) :
+    optGet ({ s with opt := s.opt.map (setBndOf arg b) } : State α) n = optGet s n := by
+  unfold optGet
+  simp only [List.find?_map]
+  have : ((fun o : OptArg α => o.name == n) ∘ setBndOf arg b) = (fun o : OptArg α => o.name == n) := by
+    funext o; simp [Function.comp, setBndOf_name]
+  rw [this]
+  cases h : List.find? (fun o : OptArg α => o.name == n) s.opt with
+  | none => rfl
+  | some o => simp [setBndOf_val]
+
+theorem var_setBnd (sp : ClassSpec α) (s : State α) (arg : String) (b : Bnd α) :
+    var sp ({ s with opt := s.opt.map (setBndOf arg b) } : State α) = var sp s := by
+  simp only [var, varFactor, optGet_setBnd]
+
+theorem storeBnd_opt {s : State α} {arg : String} {b : Bnd α} (h : hasOpt s arg = true) :
+    storeBnd s arg b = some { s with opt := s.opt.map (setBndOf arg b) } := by
+  unfold storeBnd
+  rw [if_pos h]
+  rfl
+
+theorem getVals_opt {sp : ClassSpec α} {s : State α} {arg : String}
+    (h : arg ≠ "var" ∧ arg ≠ "len_scale" ∧ arg ≠ "nugget" ∧ arg ≠ "anis") :
+    getVals sp s arg = [optGet s arg] := by
+  unfold getVals
+  split <;> simp_all
+
+theorem hasOpt_iff {s : State α} {n : String} : hasOpt s n = true ↔ ∃ o ∈ s.opt, o.name = n := by
+  simp [hasOpt, List.any_eq_true]
+
+/-- storing new bounds for an argument whose value lies inside them keeps the model inside its bounds -/
+theorem inBounds_storeBnd {sp : ClassSpec α} {s s1 : State α} {arg : String} {b : Bnd α}
+    (hs : storeBnd s arg b = some s1) (hok : OptNamesOK s) (hin : InBounds sp s)
+    (hc : errorCase b (getVals sp s1 arg) = 0) : InBounds sp s1 := by
+  obtain ⟨hv, hl, hn, ha, ho⟩ := hin
+  by_cases hopt : hasOpt s arg = true
+  · rw [storeBnd_opt hopt] at hs
+    injection hs with hs
+    subst hs
+    obtain ⟨o0, ho0, hname⟩ := hasOpt_iff.mp hopt
+    have hres := hname ▸ hok.2 o0 ho0
+    rw [getVals_opt hres, errorCase_eq_zero_iff] at hc
+    have hc' := hc _ (List.mem_singleton.mpr rfl)
+    rw [optGet_setBnd] at hc'
+    refine ⟨?_, hl, hn, ha, ?_⟩
+    · show InBnd s.varB (var sp _)
+      rw [var_setBnd]; exact hv
+    · intro o' ho'
+      obtain ⟨o, hmem, rfl⟩ := List.mem_map.mp ho'
+      unfold setBndOf
+      split
+      · rename_i heq
+        have heq' : o.name = arg := by simpa using heq
+        have : optGet s arg = o.val := heq' ▸ optGet_of_mem hok.1 hmem
+        rw [this] at hc'
+        exact hc'
+      · exact ho o hmem
+  · unfold storeBnd at hs
+    rw [if_neg hopt] at hs
+    split at hs
+    · injection hs with hs; subst hs
+      rw [errorCase_eq_zero_iff] at hc
+      exact ⟨hv, hc _ (List.mem_singleton.mpr rfl), hn, ha, ho⟩
+    · injection hs with hs; subst hs
+      rw [errorCase_eq_zero_iff] at hc
+      exact ⟨hv, hl, hc _ (List.mem_singleton.mpr rfl), ha, ho⟩
+    · injection hs with hs; subst hs
+      rw [errorCase_eq_zero_iff] at hc
+      exact ⟨hv, hl, hn, hc, ho⟩
+    · cases hs
+
+theorem optNamesOK_of_sameBounds {s s' : State α} (h : SameBounds s s') (hok : OptNamesOK s) : OptNamesOK s' := by
+  have hnames : s'.opt.map (·.name) = s.opt.map (·.name) := by
+    have := congrArg (List.map Prod.fst) h.2.2.2.2
+    rw [List.map_map, List.map_map] at this
+    exact this
+  refine ⟨hnames ▸ hok.1, ?_⟩
+  intro o ho
+  have : o.name ∈ s.opt.map (·.name) := hnames ▸ List.mem_map_of_mem (f := (·.name)) ho
+  obtain ⟨o2, ho2, hn2⟩ := List.mem_map.mp this
+  rw [← hn2]; exact hok.2 o2 ho2
+
+theorem optNamesOK_storeBnd {s s1 : State α} {arg : String} {b : Bnd α} (hs : storeBnd s arg b = some s1)
+    (hok : OptNamesOK s) : OptNamesOK s1 := by
+  have hnames : s1.opt.map (·.name) = s.opt.map (·.name) := by
+    unfold storeBnd at hs
+    split at hs
+    · injection hs with hs; subst hs
+      simp only [List.map_map]
+      apply List.map_congr_left
+      intro o _
+      simp only [Function.comp]
+      split <;> rfl
+    · split at hs <;> first | (injection hs with hs; subst hs; rfl) | cases hs
+  refine ⟨hnames ▸ hok.1, ?_⟩
+  intro o ho
+  have : o.name ∈ s.opt.map (·.name) := hnames ▸ List.mem_map_of_mem (f := (·.name)) ho
+  obtain ⟨o2, ho2, hn2⟩ := List.mem_map.mp this
+  rw [← hn2]; exact hok.2 o2 ho2
+
+theorem assignDefault_ok {sp : ClassSpec α} {s : State α} {arg : String} {b : Bnd α} :
+    (assignDefault sp s arg b).err = none → InBounds sp (assignDefault sp s arg b).st := by
+  unfold assignDefault
+  split
+  · exact doSetVar_ok
+  · exact doSetLenScale_ok
+  · exact chk_ok
+  · exact doSetAnis_ok
+  · exact doSetOpt_ok
+
+theorem sameBounds_assignDefault (sp : ClassSpec α) (s : State α) (arg : String) (b : Bnd α) :
+    SameBounds s (assignDefault sp s arg b).st := by
+  unfold assignDefault
+  split
+  · exact sameBounds_doSetVar sp s _
+  · exact sameBounds_doSetLenScale sp s _
+  · exact ⟨rfl, rfl, rfl, rfl, rfl⟩
+  · exact sameBounds_doSetAnis sp s _
+  · exact sameBounds_doSetOpt sp s _ _
+
+/-- `set_arg_bounds(check_args=True, …)` that does not raise, started inside the bounds, ends inside the new
+    bounds (values outside new bounds were replaced by defaults through the checking setters) -/
+theorem argBoundsLoop_ok (sp : ClassSpec α) (bs : List (String × RawBnd α)) :
+    ∀ (s : State α) (vb : Option (Bnd α)), OptNamesOK s → InBounds sp s →
+      (argBoundsLoop sp true bs s vb).err = none → InBounds sp (argBoundsLoop sp true bs s vb).st := by
+  induction bs with
+  | nil =>
+    intro s vb hok hin herr
+    unfold argBoundsLoop at herr ⊢
+    split
+    · exact hin
+    · rename_i b
+      simp only [Bool.true_and] at herr ⊢
+      by_cases hc : (errorCase b [var sp ({ s with varB := b } : State α)] != 0) = true
+      · rw [if_pos hc] at herr ⊢
+        exact assignDefault_ok herr
+      · rw [if_neg hc]
+        have hc0 : errorCase b [var sp ({ s with varB := b } : State α)] = 0 := by simpa using hc
+        rw [errorCase_eq_zero_iff] at hc0
+        obtain ⟨_, hl, hn, ha, ho⟩ := hin
+        exact ⟨hc0 _ (List.mem_singleton.mpr rfl), hl, hn, ha, ho⟩
+  | cons p rest ih =>
+    intro s vb hok hin herr
+    obtain ⟨arg, raw⟩ := p
+    unfold argBoundsLoop at herr ⊢
+    split
+    · rename_i hraw
+      simp only [hraw] at herr
+      cases herr
+    · rename_i b hraw
+      simp only [hraw] at herr
+      split
+      · rename_i hvar
+        rw [if_pos hvar] at herr
+        exact ih _ _ hok hin herr
+      · rename_i hvar
+        rw [if_neg hvar] at herr
+        split
+        · rename_i hst
+          simp only [hst] at herr
+          cases herr
+        · rename_i s1 hst
+          simp only [hst, Bool.true_and] at herr ⊢
+          have hok1 := optNamesOK_storeBnd hst hok
+          by_cases hc : (errorCase b (getVals sp s1 arg) != 0) = true
+          · rw [if_pos hc] at herr ⊢
+            by_cases he : (assignDefault sp s1 arg b).err.isSome = true
+            · rw [if_pos he] at herr
+              rw [herr] at he; cases he
+            · rw [if_neg he] at herr ⊢
+              have he' : (assignDefault sp s1 arg b).err = none := by
+                cases h : (assignDefault sp s1 arg b).err with
+                | none => rfl
+                | some e => rw [h] at he; simp at he
+              exact ih _ _ (optNamesOK_of_sameBounds (sameBounds_assignDefault sp s1 arg b) hok1)
+                (assignDefault_ok he') herr
+          · rw [if_neg hc] at herr ⊢
+            have hc0 : errorCase b (getVals sp s1 arg) = 0 := by simpa using hc
+            exact ih _ _ hok1 (inBounds_storeBnd hst hok hin hc0) herr
+
+theorem optNamesOK_argBoundsLoop (sp : ClassSpec α) (check : Bool) (bs : List (String × RawBnd α)) :
+    ∀ (s : State α) (vb : Option (Bnd α)), OptNamesOK s → OptNamesOK (argBoundsLoop sp check bs s vb).st := by
+  induction bs with
+  | nil =>
+    intro s vb hok
+    unfold argBoundsLoop
+    split
+    · exact hok
+    · rename_i b
+      have h1 : OptNamesOK ({ s with varB := b } : State α) := hok
+      simp only
+      split
+      · exact optNamesOK_of_sameBounds (sameBounds_assignDefault sp _ _ _) h1
+      · exact h1
+  | cons p rest ih =>
+    intro s vb hok
+    obtain ⟨arg, raw⟩ := p
+    unfold argBoundsLoop
+    split
+    · exact hok
+    · rename_i b _
+      split
+      · exact ih _ _ hok
+      · split
+        · exact hok
+        · rename_i s1 hs1
+          have h1 := optNamesOK_storeBnd hs1 hok
+          split
+          · have h2 := optNamesOK_of_sameBounds (sameBounds_assignDefault sp s1 arg b) h1
+            simp only
+            split
+            · exact h2
+            · exact ih _ _ h2
+          · exact ih _ _ h1
+
+/-- histories of plain setters and `set_arg_bounds(check_args=True, …)` calls none of which raised -/
+inductive ReachOkB (sp : ClassSpec α) : State α → Prop where
+  | init {cfg : Cfg α} {s : State α} {w : Bool} : construct sp cfg = .ok (s, w) → ReachOkB sp s
+  | step {s : State α} (op : Op α) : ReachOkB sp s → Op.plain sp op = true → (∀ v, op ≠ .setRescale v) →
+      (step sp s op).err = none → ReachOkB sp (step sp s op).st
+  | bounds {s : State α} (bs : List (String × RawBnd α)) : ReachOkB sp s →
+      (step sp s (.setArgBounds true bs)).err = none → ReachOkB sp (step sp s (.setArgBounds true bs)).st
+
 end lawfree
 
 /-! ## Part 2: over a linearly ordered field -/
@@ -1032,6 +1290,35 @@ theorem reachOk_invariants {sp : ClassSpec F} (hsp : SpecOK sp) {s : State F}
           rw [checkArgBounds_rescale htpl]; exact hin
     · exact (checkArgBounds_eq_none_iff sp _).mpr
         (step_ok_inBounds sp s0 op hp (fun v hv => hr ⟨v, hv⟩) herr)
+
+/-- optional-argument names of the class table are distinct and do not shadow a standard argument -/
+def SpecNamesOK (sp : ClassSpec F) : Prop :=
+  ∀ d, ((sp.opts d).map (·.name)).Nodup ∧
+    ∀ o ∈ sp.opts d, o.name ≠ "var" ∧ o.name ≠ "len_scale" ∧ o.name ≠ "nugget" ∧ o.name ≠ "anis"
+
+theorem construct_optNamesOK {sp : ClassSpec F} (hsp : SpecNamesOK sp) {cfg : Cfg F} {s : State F} {w : Bool}
+    (h : construct sp cfg = .ok (s, w)) : OptNamesOK s := by
+  obtain ⟨d, _, _, _, _, e5⟩ := construct_bounds h
+  have hnames : s.opt.map (·.name) = (sp.opts d).map (·.name) := by
+    have := congrArg (List.map Prod.fst) e5
+    rw [List.map_map, List.map_map] at this
+    exact this
+  refine ⟨hnames ▸ (hsp d).1, ?_⟩
+  intro o ho
+  have : o.name ∈ (sp.opts d).map (·.name) := hnames ▸ List.mem_map_of_mem (f := (·.name)) ho
+  obtain ⟨o2, ho2, hn2⟩ := List.mem_map.mp this
+  rw [← hn2]; exact (hsp d).2 o2 ho2
+
+/-- bounds invariant along histories that also contain `set_arg_bounds(check_args=True)` calls -/
+theorem reachOkB_inBounds {sp : ClassSpec F} (hsp : SpecNamesOK sp) {s : State F} (h : ReachOkB sp s) :
+    OptNamesOK s ∧ InBounds sp s := by
+  induction h with
+  | init hc =>
+    exact ⟨construct_optNamesOK hsp hc, (checkArgBounds_eq_none_iff sp _).mp (construct_ok hc).2⟩
+  | @step s0 op _ hp hr herr ih =>
+    exact ⟨optNamesOK_of_sameBounds (sameBounds_step sp s0 op hp) ih.1, step_ok_inBounds sp s0 op hp hr herr⟩
+  | @bounds s0 bs _ herr ih =>
+    exact ⟨optNamesOK_argBoundsLoop sp true bs s0 none ih.1, argBoundsLoop_ok sp bs s0 none ih.1 ih.2 herr⟩
 
 end field
 
